@@ -782,22 +782,58 @@ func (vc *VC) script(o *Obligation, produceModels bool) string {
 		b.WriteString("(set-option :produce-models true)\n")
 	}
 	b.WriteString("(set-logic ALL)\n")
-	for _, d := range vc.sorts().decls {
-		b.WriteString(d)
-		b.WriteString("\n")
-	}
+	sortDeclsAt := b.Len()
 	b.WriteString("(declare-const g_emptystr g_Str)\n(assert (= (g_strlen g_emptystr) (_ bv0 64)))\n")
 	b.WriteString("(define-fun g_nilslice () g_Slice (g_mkslice (_ bv0 64) (_ bv0 64) (_ bv0 64) (_ bv0 64)))\n")
 	b.WriteString("(define-fun g_niliface () g_Iface (g_mkiface (_ bv0 32) (_ bv0 64)))\n")
+	// global declarations (uninterpreted functions, sequence-equality predicates and
+	// their axioms, float operations) are shared by all functions of a run; a query
+	// gets only those it mentions, so that unrelated contracts do not perturb it
+	used := map[string]bool{}
+	note := func(l string) {
+		for _, sname := range symRe.FindAllString(l, -1) {
+			used[sname] = true
+		}
+	}
+	for _, d := range vc.preamble {
+		note(d)
+	}
+	for _, l := range vc.lines[:o.UpTo] {
+		note(l)
+	}
+	note(o.Goal)
+	declared := map[string]bool{}
 	for _, d := range vc.eng.globalDecls {
-		if o.Weak && strings.HasPrefix(d, "(assert (forall") {
+		if strings.HasPrefix(d, "(declare-fun ") {
+			f := strings.Fields(d)
+			if len(f) >= 2 {
+				declared[f[1]] = true
+			}
+		}
+	}
+	for _, d := range vc.eng.globalDecls {
+		if o.Weak && isQuantAssert(d) {
+			continue
+		}
+		keep := true
+		if strings.HasPrefix(d, "(declare-fun ") {
+			f := strings.Fields(d)
+			keep = len(f) < 2 || used[f[1]] || !strings.HasPrefix(f[1], "g_")
+		} else if strings.HasPrefix(d, "(assert ") {
+			for _, sname := range symRe.FindAllString(d, -1) {
+				if declared[sname] && !used[sname] {
+					keep = false
+				}
+			}
+		}
+		if !keep {
 			continue
 		}
 		b.WriteString(d)
 		b.WriteString("\n")
 	}
 	for _, d := range vc.preamble {
-		if o.Weak && strings.HasPrefix(d, "(assert (forall") {
+		if o.Weak && isQuantAssert(d) {
 			continue
 		}
 		b.WriteString(d)
@@ -812,7 +848,7 @@ func (vc *VC) script(o *Obligation, produceModels bool) string {
 		b.WriteString("(assert (distinct g_emptystr " + strings.Join(ns, " ") + "))\n")
 	}
 	for _, l := range vc.lines[:o.UpTo] {
-		if o.Weak && strings.HasPrefix(l, "(assert (forall") {
+		if o.Weak && isQuantAssert(l) {
 			continue
 		}
 		b.WriteString(l)
@@ -824,7 +860,66 @@ func (vc *VC) script(o *Obligation, produceModels bool) string {
 		b.WriteString("(assert (not " + o.Goal + "))\n")
 	}
 	b.WriteString("(check-sat)\n")
-	return b.String()
+	// struct sorts are declared once per run for every type met so far; a query
+	// declares only those it uses (directly or through other declared sorts)
+	text := b.String()
+	head, rest := text[:sortDeclsAt], text[sortDeclsAt:]
+	usedSyms := map[string]bool{}
+	for _, sname := range symRe.FindAllString(rest, -1) {
+		usedSyms[sname] = true
+	}
+	decls := vc.sorts().decls
+	keep := make([]bool, len(decls))
+	for changed := true; changed; {
+		changed = false
+		for i, d := range decls {
+			if keep[i] {
+				continue
+			}
+			k := true
+			if strings.HasPrefix(d, "(declare-datatypes ((g_S_") {
+				name := d[len("(declare-datatypes (("):]
+				if sp := strings.IndexByte(name, ' '); sp > 0 {
+					name = name[:sp]
+				}
+				k = usedSyms[name] || usedSyms["mk_"+name]
+				if !k {
+					for sname := range usedSyms {
+						if strings.HasPrefix(sname, name+"_f") {
+							k = true
+							break
+						}
+					}
+				}
+			}
+			if k {
+				keep[i] = true
+				changed = true
+				for _, sname := range symRe.FindAllString(d, -1) {
+					usedSyms[sname] = true
+				}
+			}
+		}
+	}
+	var sb strings.Builder
+	sb.WriteString(head)
+	for i, d := range decls {
+		if keep[i] {
+			sb.WriteString(d)
+			sb.WriteString("\n")
+		}
+	}
+	sb.WriteString(rest)
+	return sb.String()
+}
+
+// isQuantAssert: an assumption line that is, or is guarded by a plain condition
+// and then is, a quantified library fact (dropped in weakened queries).
+func isQuantAssert(l string) bool {
+	if strings.HasPrefix(l, "(assert (forall") {
+		return true
+	}
+	return strings.HasPrefix(l, "(assert (=> ") && strings.Contains(l, " (forall ((g_j ")
 }
 
 var symRe = regexp.MustCompile(`g_[A-Za-z0-9_]+`)
@@ -889,7 +984,7 @@ func sliceScript(script string) string {
 			} else if len(f) >= 2 && !isVar[f[1]] {
 				b.WriteString(l + "\n")
 			}
-		case strings.HasPrefix(l, "(assert (forall"):
+		case isQuantAssert(l):
 			// dropped
 		case strings.HasPrefix(l, "(assert "):
 			ok := true
